@@ -2,7 +2,7 @@
 import subprocess, os, re
 import vlib, ksi
 
-WRAP = ["-Wl,--wrap=time,--wrap=close,--wrap=getaddrinfo,--wrap=freeaddrinfo,--wrap=socket,--wrap=ioctl,--wrap=connect,--wrap=poll,--wrap=recv,--wrap=send"]
+WRAP = ["-Wl,--wrap=time,--wrap=close,--wrap=getaddrinfo,--wrap=freeaddrinfo,--wrap=socket,--wrap=ioctl,--wrap=connect,--wrap=poll,--wrap=recv,--wrap=send,--wrap=KSI_AsyncService_run,--wrap=KSI_AsyncService_addRequest"]
 STATE = {0: "undef", 1: "queued", 2: "sent", 3: "resp", 4: "conf", 5: "err", 6: "notice"}
 ERR = {0x204: "sndto", 0x205: "rcvto", 0x203: "conto", 0x202: "neterr", 0x604: "closed", 0x20e: "hmac", 0x101: "parse"}
 
@@ -28,8 +28,10 @@ class Session:
         env = dict(os.environ); env.update(vlib.ASAN_ENV)
         self.p = subprocess.Popen([exe], stdin=subprocess.PIPE, stdout=subprocess.PIPE, stderr=subprocess.PIPE, env=env)
         self.log = []          # every command and every output line, for replay files
-        self.conn_open = False
+        self.conn_open = False      # endpoint 0 (single-endpoint scenarios)
         self.conn_no = 0
+        self.ep_open = {}           # per endpoint (HA scenarios)
+        self.ep_conn = {}
 
     def cmd(self, line):
         self.log.append("> " + line[:2000])
@@ -47,10 +49,17 @@ class Session:
                 break
             out.append(ln)
             self.log.append(ln[:2000])
-            if ln.startswith("E socket"):
-                self.conn_open = True; self.conn_no += 1
-            elif ln.startswith("E close"):
-                self.conn_open = False
+            if ln.startswith("E socket") or ln.startswith("E close"):
+                m = re.search(r"ep=(\d+)", ln)
+                ep = int(m.group(1)) if m else 0
+                if ln.startswith("E socket"):
+                    self.ep_open[ep] = True; self.ep_conn[ep] = self.ep_conn.get(ep, 0) + 1
+                    if ep == 0:
+                        self.conn_open = True; self.conn_no += 1
+                else:
+                    self.ep_open[ep] = False
+                    if ep == 0:
+                        self.conn_open = False
         return out
 
     def stderr(self):
